@@ -2019,6 +2019,55 @@ fn c04_accessors(ctx: &mut Ctx, feats: &dyn Fn() -> Feats, text: &str) {
     let _ = v0;
 }
 
+/// Second pass over a history: maximal runs of consecutive authority edits share ONE AuthorityMut
+/// handle and maximal runs of path edits share ONE PathMut handle ("any finite sequence of safe
+/// mutating calls ... through the authority handle"); the invariant is checked whenever the handle
+/// is dropped (the buffer cannot be observed while it is mutably borrowed).
+macro_rules! c04_grouped {
+    ($ctx:expr, $buf:expr, $ops:expr, $full:expr, $bname:expr, $rname:expr, $initial:expr, $ops_text:expr) => {{
+        let ops: &Vec<Op> = $ops;
+        let mut i = 0usize;
+        while i < ops.len() {
+            let before = $buf.as_bytes().to_vec();
+            let mut j = i + 1;
+            let auth = ops[i].is_auth_op();
+            let path = ops[i].is_path_op();
+            if auth { while j < ops.len() && ops[j].is_auth_op() { j += 1; } }
+            if path { while j < ops.len() && ops[j].is_path_op() { j += 1; } }
+            let group = &ops[i..j];
+            let skip = $full && group.iter().any(|o| matches!(o, Op::SetScheme(None) | Op::Resolve(_)));
+            if !skip {
+                let last = &group[group.len() - 1];
+                let f = || { let mut v = c04_feats($bname, $rname, last, &before); v.push(("handle", if group.len() > 1 { "one-handle-for-run".into() } else { "single".into() })); v };
+                $ctx.call("grouped-handle run");
+                if group.len() > 1 { $ctx.stratum("handle:shared-by-run"); }
+                let r = crate::ctx::guard(|| {
+                    if auth {
+                        if let Some(mut am) = $buf.authority_mut() { for op in group { apply_auth_op(&mut am, op); } }
+                    } else if path {
+                        let mut pm = $buf.path_mut();
+                        for op in group { apply_path_op(&mut pm, op); }
+                    } else {
+                        c04_apply_single(&mut $buf, &group[0]);
+                    }
+                });
+                if let Err(m) = r {
+                    $ctx.fail("C04.panic", f(), format!("run {:?} through one handle on {} panicked: {} (initial {}, history {:?})", group, show(&before), m, show($initial), $ops_text));
+                    break;
+                }
+                let after = $buf.as_bytes().to_vec();
+                if !c04_check_ref($ctx, &f, &after, $full, &format!("run {:?} through one handle on {} (initial {}, history {:?})", group, show(&before), show($initial), $ops_text)) { break; }
+            }
+            i = j;
+        }
+    }};
+}
+
+trait C04Single { fn c04_single(&mut self, op: &Op); }
+impl C04Single for RiRefBuf { fn c04_single(&mut self, op: &Op) { apply_ref_op(self, op); } }
+impl C04Single for RiBuf { fn c04_single(&mut self, op: &Op) { apply_full_op(self, op); } }
+fn c04_apply_single<T: C04Single>(b: &mut T, op: &Op) { b.c04_single(op) }
+
 /// kind: 0 = RiRefBuf, 1 = RiBuf, 2 = PathBuf.  route: how the initial buffer is obtained.
 pub fn c04_history(ctx: &mut Ctx, initial: &str, ops_text: &str, kind: u64, route: u64) {
     let ops: Vec<Op> = parse_ops(ops_text).into_iter().filter(|o| o.args_valid()).collect();
@@ -2034,6 +2083,10 @@ pub fn c04_history(ctx: &mut Ctx, initial: &str, ops_text: &str, kind: u64, rout
             };
             ctx.stratum("buffer:RiRefBuf");
             ctx.stratum(&format!("route:{}", rname));
+            {
+                let mut gbuf = buf.clone();
+                c04_grouped!(ctx, gbuf, &ops, false, "RiRefBuf", rname, b(initial), ops_text);
+            }
             for (i, op) in ops.iter().enumerate() {
                 let before = buf.as_bytes().to_vec();
                 let f = || c04_feats("RiRefBuf", rname, op, &before);
@@ -2060,6 +2113,10 @@ pub fn c04_history(ctx: &mut Ctx, initial: &str, ops_text: &str, kind: u64, rout
             };
             ctx.stratum("buffer:RiBuf");
             ctx.stratum(&format!("route:{}", rname));
+            {
+                let mut gbuf = buf.clone();
+                c04_grouped!(ctx, gbuf, &ops, true, "RiBuf", rname, b(initial), ops_text);
+            }
             for (i, op) in ops.iter().enumerate() {
                 if matches!(op, Op::SetScheme(None) | Op::Resolve(_)) { continue; }
                 let before = buf.as_bytes().to_vec();
